@@ -725,3 +725,24 @@ func (l *Listener) Stop() []dagsync.SyncFinished {
 	}
 	return out
 }
+
+// StopCheck cancels the registration, waits for quiescence (call inside a
+// bubble) and drains without blocking. closed reports whether the channel was
+// closed; unlike Stop it cannot hang when the library fails to close it.
+func (l *Listener) StopCheck() (events []dagsync.SyncFinished, closed bool) {
+	l.cancel()
+	for {
+		// the queue goroutine behind the channel needs to run after every
+		// receive before it can deliver the next event or close the channel
+		synctest.Wait()
+		select {
+		case ev, ok := <-l.C:
+			if !ok {
+				return events, true
+			}
+			events = append(events, ev)
+		default:
+			return events, false
+		}
+	}
+}
